@@ -28,7 +28,8 @@ def gen_c13(seed, fam=None, policy=None):
     sim = rng.choice(scn["sims"])
     sid, typ = sim["sid"], sim["type"]
     has_out = any(c["src"] == sid and c["sa"] for c in scn["conns"])
-    step_faults = [["rel", 0], ["rel", -1], ["abs", -1], ["abs", 1.5], ["abs", "2"], ["list_rel", 1]]
+    step_faults = [["rel", 0], ["rel", -1], ["abs", -1], ["abs", 1.5], ["abs", "2"], ["list_rel", 1], ["rel", 1.5], ["frac", [3, 2]], ["frac", [1, 2]],
+                   ["dec", 1.5], ["cplx", 1]]
     if typ == "time-based":
         step_faults.append(["none"])
     data_faults = [["time_rel", -1], ["time_abs", -1]]
@@ -75,6 +76,14 @@ def gen_c16(seed, policy=None):
         if rng.random() < 0.5:
             for a in agents.values():
                 a["attr"] = "i" if conns[-1]["da"] == "i2" else "i2"
+    if rng.random() < 0.3:
+        # a second simulator served by the first agent, which now has two agent entities: one set_data call may address
+        # both controlled simulators from both entities
+        b0 = "Sb"
+        sims.append({"sid": "Sf", "type": "time-based", "gpath": list(grp)})
+        conns.append({"src": "Sf", "dst": b0, "async": True})
+        next(s_ for s_ in sims if s_["sid"] == b0)["nent"] = 2
+        agents[b0]["multi"] = {"targets": ["Sa", "Sf"], "srcs": ["E0", "E1"]}
     illegal = []
     if rng.random() < 0.4:
         # a simulator that is connected to an agent by an ORDINARY connection only: requests towards it must still be refused
@@ -118,6 +127,8 @@ def gen_c09(seed, policy=None):
     scn = S.normalize({"sims": sims, "conns": conns, "until": rng.randint(1, 3), "maxloop": rng.choice([0, 1, 2, 3, 5]),
                        "lazy": rng.random() < 0.5, "cache": rng.random() < 0.5})
     beh = {"kind": "random", "p_event": rng.choice([0.5, 0.8, 1.0]), "p_future": 0.0, "ev_next": [None, None, 1]}
+    if rng.random() < 0.2:
+        scn = S.rename_sids(scn)  # the error must name the simulator whatever characters its id contains
     yield {"id": [seed, scn["maxloop"]], "scn": scn, "seed": seed, "behaviour": beh, "policy": dict(policy or {})}
 
 
